@@ -300,6 +300,10 @@ func (e *Exec) callFunction(fn *ssa.Function, args []Value, bind []Value) Value 
 	}
 	defer func() { e.depth-- }()
 	e.rep.Funcs[name]++
+	if g := e.cfg.LockGuard; g != nil && fn.Signature.Recv() != nil && fn.Signature.Recv().Type().String() == g.ScopeRecv {
+		e.guardDepth++
+		defer func() { e.guardDepth-- }()
+	}
 	fr := &frame{fn: fn, regs: make(map[ssa.Value]Value, 32), visits: map[*ssa.BasicBlock]int{}}
 	for i, p := range fn.Params {
 		fr.regs[p] = args[i]
@@ -579,6 +583,7 @@ func (e *Exec) step(fr *frame, in ssa.Instruction) {
 	case *ssa.Slice:
 		fr.regs[x] = e.sliceOp(fr, x)
 	case *ssa.Store:
+		e.guardAccess(x.Addr, true)
 		e.store(e.get(fr, x.Addr).(Ptr), x.Val.Type(), e.get(fr, x.Val))
 	case *ssa.MakeSlice:
 		ln := e.get(fr, x.Len).(*sym.Term)
@@ -596,12 +601,14 @@ func (e *Exec) step(fr *frame, in ssa.Instruction) {
 		e.nextObj++
 		fr.regs[x] = &MapObj{ID: e.nextObj, Epoch: e.epoch}
 	case *ssa.MapUpdate:
+		e.guardMap(x.Map, true)
 		m := e.get(fr, x.Map).(*MapObj)
 		if m == nil {
 			e.definitePanic("nil-map", "assignment to entry in nil map")
 		}
 		e.mapUpdate(m, e.get(fr, x.Key), e.get(fr, x.Value))
 	case *ssa.Lookup:
+		e.guardMap(x.X, false)
 		fr.regs[x] = e.lookup(x, e.get(fr, x.X), e.get(fr, x.Index))
 	case *ssa.MakeClosure:
 		binds := make([]Value, len(x.Bindings))
@@ -610,6 +617,7 @@ func (e *Exec) step(fr *frame, in ssa.Instruction) {
 		}
 		fr.regs[x] = &Closure{Fn: x.Fn.(*ssa.Function), Bind: binds}
 	case *ssa.Range:
+		e.guardMap(x.X, false)
 		fr.regs[x] = e.rangeInit(e.get(fr, x.X))
 	case *ssa.Next:
 		fr.regs[x] = e.rangeNext(x, e.get(fr, x.Iter).(*RangeIter))
@@ -692,6 +700,7 @@ func (e *Exec) unop(fr *frame, x *ssa.UnOp) Value {
 	v := e.get(fr, x.X)
 	switch x.Op {
 	case token.MUL:
+		e.guardAccess(x.X, false)
 		return e.load(v.(Ptr), x.Type())
 	case token.NOT:
 		return e.tb.Not(v.(*sym.Term))
@@ -856,4 +865,72 @@ func (e *Exec) sliceOp(fr *frame, x *ssa.Slice) Value {
 		return Slice{}
 	}
 	return Slice{Obj: obj, Off: off + l*stride, Len: h - l, Cap: newCap, Stride: stride}
+}
+
+// ---------------------------------------------------------------- lock-discipline monitor
+
+func (e *Exec) lockHeld(write bool) bool {
+	for _, st := range e.lockState {
+		if st == -1 || (!write && st > 0) {
+			return true
+		}
+	}
+	return false
+}
+
+func (e *Exec) guardViolation(what string, write bool) {
+	kind := "read"
+	if write {
+		kind = "write"
+	}
+	key := "lock/" + e.siteKey(kind)
+	o := e.rep.obl(key)
+	if e.lockHeld(write) {
+		o.Folded++
+		return
+	}
+	e.violation(key, "lock", what+" without holding the lock ("+kind+")", e.ensureModel())
+}
+
+// guardAccess checks loads/stores through FieldAddr of a guarded field or of a guarded record type.
+func (e *Exec) guardAccess(addr ssa.Value, write bool) {
+	g := e.cfg.LockGuard
+	if g == nil || e.guardDepth == 0 {
+		return
+	}
+	fa, ok := addr.(*ssa.FieldAddr)
+	if !ok {
+		return
+	}
+	pt, ok := fa.X.Type().Underlying().(*types.Pointer)
+	if !ok {
+		return
+	}
+	st, ok := pt.Elem().Underlying().(*types.Struct)
+	if !ok {
+		return
+	}
+	tname := pt.Elem().String()
+	fname := st.Field(fa.Field).Name()
+	if "*"+tname == g.ScopeRecv {
+		for _, f := range g.Fields {
+			if f == fname {
+				e.guardViolation("access to "+tname+"."+fname, write)
+			}
+		}
+		return
+	}
+	if tname == g.RecordType {
+		e.guardViolation("access to "+tname+"."+fname, write)
+	}
+}
+
+func (e *Exec) guardMap(m ssa.Value, write bool) {
+	g := e.cfg.LockGuard
+	if g == nil || e.guardDepth == 0 {
+		return
+	}
+	if m.Type().String() == g.MapType {
+		e.guardViolation("access to map "+g.MapType, write)
+	}
 }
